@@ -8,6 +8,7 @@
 -/
 import Torf.Generated.Kernels
 import Torf.Model.Validate
+import Torf.Model.KeyVocabulary
 namespace Torf.C08
 open Torf.Generated Torf.Validate Torf.Rx
 
@@ -64,5 +65,19 @@ theorem C08_kernel_md5sum (s : String) : (md5sumRegex.run s.toList).isSome = isM
 
 example : (md5sumRegex.run "d41d8cd98f00b204e9800998ecf8427e\n".toList).isSome = true := by decide +kernel
 example : (md5sumRegex.run "d41d8cd98f00b204e9800998ecf8427e\n\n".toList).isSome = false := by decide +kernel
+
+/-! ### the keys the code reads (round 6)
+
+  `Generated.validateKeys` / `Generated.readStreamKeys` are harvested from the source of `Torrent.validate` /
+  `Torrent.read_stream` on every run: every string constant the function uses as a dictionary key.  Outside
+  `topKeys ++ infoKeys ++ fileKeys` the model provably ignores a metainfo (`C08_unknown_key_irrelevant`), so the model can
+  only be a model of the code if every key the code reads is in that vocabulary.  A key that new code starts reading
+  (`info.get('meta version', 1) > 1`) makes these obligations fail until the model knows the key. -/
+
+/-- every key `Torrent.validate` reads is in the vocabulary of the model -/
+theorem C08_kernel_validate_keys : ∀ k ∈ validateKeys, k ∈ topKeys ++ infoKeys ++ fileKeys := by decide
+
+/-- every key `Torrent.read_stream` reads is in the vocabulary of the model -/
+theorem C08_kernel_read_stream_keys : ∀ k ∈ readStreamKeys, k ∈ topKeys ++ infoKeys ++ fileKeys := by decide
 
 end Torf.C08
